@@ -166,10 +166,9 @@ Qed.
 
 Lemma qs_wait r s s' : cells_ok s -> wait_ok s -> queue_step r s = Some s' -> wait_ok s'.
 Proof.
-  intros Hc [Hw1 Hw2] Hs. pose proof (c_w_ready _ Hc) as Hwr. pose proof (c_w_sf _ Hc) as Hws. clear Hc.
+  intros Hc Hw2 Hs. pose proof (c_w_ready _ Hc) as Hwr. pose proof (c_w_sf _ Hc) as Hws. clear Hc.
   unfold wait_ok in *. destruct_state s. cbn in *. qs_cases Hs.
   all: destruct Hwr as [->| ->]; destruct Hws as [->| ->]; cbn.
-  all: split; [done|].
   all: try done.
   all: intros Hpc; specialize (Hw2 Hpc).
   all: try (by left).
@@ -192,7 +191,7 @@ Lemma wait_ok_view s s' :
   (s'.(pc) = PIdle -> s.(pc) = PIdle /\ (s.(pollable) = true -> s'.(pollable) = true)) ->
   wait_ok s -> wait_ok s'.
 Proof.
-  unfold wait_ok. intros -> -> -> -> -> -> Hp [H1 H2]. split; [done|].
+  unfold wait_ok. intros -> -> -> -> -> -> Hp H2.
   intros E. destruct (Hp E) as [E' Hq]. destruct (H2 E') as [?|?]; [left; auto|by right].
 Qed.
 
